@@ -159,6 +159,33 @@ def numeric_tower(ti, di, kind):
         if o[0] == "other_exc": return dbg(("numeric_tower", ti, di, kind, k, o[1]))
         if o[0] == "load_error" and not only_load_errors(o[2]): return False
     return True
+# ---- data that can be subscripted with a str but is no container: class objects with __class_getitem__ (list['x'] is a GenericAlias)
+import dataclasses as _dc
+@_dc.dataclass
+class CO_M:
+    x: str
+    y: Optional[int] = None
+class CO_NT(NamedTuple):
+    x: Any
+    y: int = 0
+class CO_TD(TypedDict):
+    x: Any
+    y: NotRequired[int]
+class _GetItemOnly:
+    def __getitem__(self, k):
+        if isinstance(k, str): return 1
+        raise IndexError(k)                 # (not an endless old-style sequence)
+CO_DATA = (list, dict, type, tuple, List, _GetItemOnly(), 5, "s", None)
+CO_TYPES = (CO_M, CO_NT, CO_TD, Optional[CO_M], List[CO_NT], Dict[str, CO_TD])
+CO_LD = [{k: r.get_loader(t) for k, r in RS.items()} for t in CO_TYPES]
+def class_objects(ti, di, kind):
+    d = CO_DATA[pick(di, len(CO_DATA))]
+    data = [d, [d], {"k": d}][pick(kind, 3)]
+    for k, l in CO_LD[pick(ti, len(CO_TYPES))].items():
+        o = outcome(l, data)
+        if o[0] == "other_exc": return False
+        if o[0] == "load_error" and not only_load_errors(o[2]): return False
+    return True
 PATTERNS = ("a{4294967296}", "(", "a{2,1}", "[", "(?P<x>a)(?P<x>b)", "a" * 3 + "{65536}{65536}", chr(92), "(?z)", "*", "a**")
 PAT_LD = {k: r.get_loader(re.Pattern) for k, r in RS.items()}
 def pattern_pool(i):
@@ -228,6 +255,10 @@ def chk_numeric_tower(ti, di, kind):
            family="stdlib numeric-tower data (Decimal sNaN/NaN/Infinity/huge exponent, huge Fraction, complex nan/inf, +-10**5000) x every builtin loader (labelled enumeration)",
            bounds="53 builtin-supported types (scalars, IP/path/IO types, literals, enums, flags, unions, containers) x 18 pooled values bare or inside "
                   "5 container shapes (list, dict value, dict key, tuple, list tail) x 6 modes; native")
+    mx.ob("subscriptable_non_containers", "ti: int, di: int, kind: int", "return class_objects(ti, di, kind)", pre=["0 <= ti < 6", "0 <= di < 9", "0 <= kind < 3"], timeout=120,
+          family="model loaders given data that can be subscripted with a str but is no mapping (class objects with __class_getitem__, objects with __getitem__ only)",
+          bounds="6 model types (dataclass, NamedTuple, TypedDict, Optional / List / Dict of them) x 9 data (list, dict, type, tuple, typing.List, a __getitem__-only object, int, str, None) "
+                 "bare, in a list, in a dict; 6 modes")
     mx.nat("huge_trail_key", '''
 def nat_huge_trail_key():
     bad = [{"sel": str(sel), "v": str(v)} for sel in range(3) for v in (0, -1, 7) if not huge_key(sel, v)]
